@@ -52,7 +52,7 @@ def summarize(respath, harness, wall):
             maxdepth = max(maxdepth, r.get('depth', 0))
             for k, v in (r.get('covers') or {}).items():
                 covers[k] += v
-            if r['status'] not in ('ok', 'assume_false', 'panic', 'violation'):
+            if r['status'] not in ('ok', 'assume_false', 'panic', 'violation', 'infeasible'):
                 details[r['status'] + ': ' + r.get('detail', '')[:300]] += 1
             for v in r.get('violations') or []:
                 key = (v['kind'], v['msg'])
@@ -64,7 +64,7 @@ def summarize(respath, harness, wall):
                 samples.append({'inputs': r['inputs'], 'obs': r.get('obs', [])})
     # NOTE: steps/queries are per-process counters that include the prefix inherited at fork time; we report
     # them as upper bounds of distinct work ("steps_sum"), plus the exact number of paths.
-    bad = [k for k in st if k not in ('ok', 'assume_false', 'panic', 'violation')]
+    bad = [k for k in st if k not in ('ok', 'assume_false', 'panic', 'violation', 'infeasible')]
     return {
         'harness': harness, 'paths': npaths, 'status_counts': dict(st), 'steps_sum': steps, 'queries_sum': queries,
         'solver_s_sum': round(solver_s, 3), 'max_fork_depth': maxdepth, 'violations': list(viol.values()),
